@@ -59,6 +59,8 @@ func liveHandlers(parent int) int { return countHandlers(parent, false) }
 var dumpMu sync.Mutex
 var dumpBuf = make([]byte, 4<<20)
 
+// (goroutines are recognised by their creator and by being inside package listener/canary, not by
+// the names of unexported functions there: renaming handleTCP is a harmless rewrite)
 func countHandlers(parent int, onlyChanSend bool) int {
 	dumpMu.Lock() // one stop-the-world dump at a time
 	defer dumpMu.Unlock()
@@ -78,7 +80,7 @@ func countHandlers(parent int, onlyChanSend bool) int {
 		if nl < 0 {
 			continue
 		}
-		if (!onlyChanSend || bytes.Contains(g[:nl], []byte("[chan send"))) && bytes.Contains(g, []byte("canary.(*Canary).handle")) &&
+		if (!onlyChanSend || bytes.Contains(g[:nl], []byte("[chan send"))) && bytes.Contains(g, []byte("honeytrap/listener/canary.")) &&
 			(bytes.Contains(g, tag) || bytes.HasSuffix(g, tag[:len(tag)-1])) {
 			cnt++
 		}
